@@ -128,7 +128,18 @@ func stranger(seed uint64) *cryptoh.Miner {
 	return s
 }
 
-func run(s scen) *outcome {
+// run executes one scenario; a panic of the code under test is reported as a failure.
+func run(s scen) (res *outcome) {
+	defer func() {
+		if r := recover(); r != nil {
+			res = &outcome{descs: map[string]string{}, hist: map[string]int{}}
+			res.fail("node-panics", fmt.Sprintf("the code under test panicked: %v", r))
+		}
+	}()
+	return run1(s)
+}
+
+func run1(s scen) *outcome {
 	o := &outcome{descs: map[string]string{}, hist: map[string]int{}}
 	w := world(s.T, s.N, s.WorldSeed)
 	// hypothesis of the model
